@@ -418,6 +418,22 @@ def substitution_compare():
     run("redefinition", ["#define F(x) x+1", "#define F(x) x-1", "c = F(5)"], ["#define F(x) x+1", "#define F(x) x-1", "c = 5-1"])
     run("redefinition", ["#define F(x) x+1", "c = F(5)", "#define F(x) x-1", "d = F(5)"], ["#define F(x) x+1", "c = 5+1", "#define F(x) x-1", "d = 5-1"])
     run("redefinition", ["#define N 1", "#undef N", "k = N"], ["#define N 1", "#undef N", "k = N"])
+    # a macro redefined by an #include'd header: later uses take the new body (object-like and function-like, also #undef)
+    from replay.harness import Workspace
+    ws = Workspace({"inc.h": "#define F(x) x+2\n#define G 7\n#undef H\n"})
+    try:
+        lines = ["#define F(x) x+1", "#define G 5", "#define H(x) x*3", "a = F(1) + G + H(2)", '#include "inc.h"', "b = F(1) + G + H(2)"]
+        w, n = res.get("redefinition_by_include", (None, 0))
+        try:
+            out, _, _, defs = preprocess_file(list(lines), file_path=ws.path("main.F90"), pp_defs={})
+            want = lines[:3] + ["a = 1+1 + 5 + 2*3", lines[4], "b = 1+2 + 7 + H(2)"]
+            if out != want:
+                w = {"lines": lines, "inc.h": ["#define F(x) x+2", "#define G 7", "#undef H"], "expected_output": want, "fortls_output": out}
+        except Exception as e:  # noqa: BLE001
+            w = {"lines": lines, "exception": repr(e)}
+        res["redefinition_by_include"] = (w, n + 1)
+    finally:
+        ws.close()
     # known findings of the pinned tree (kept separate so that each is identified by its own obligation)
     run("rescan_of_expansion", ["#define B 2", "#define A B", "x = A"], ["#define B 2", "#define A B", "x = 2"])
     run("object_like_in_character_literal", ["#define N 5", "print *, 'N is', N"], ["#define N 5", "print *, 'N is', 5"])
